@@ -37,6 +37,7 @@ pub struct Coll<'ast> {
     pub stmts: Vec<&'ast Stmt>,
     pub fields: Vec<&'ast FieldValue>,
     pub ifs: Vec<&'ast ExprIf>,
+    pub calls: Vec<&'ast ExprCall>,
     pub depth_fn: usize,
 }
 
@@ -72,6 +73,10 @@ impl<'ast> Visit<'ast> for Coll<'ast> {
             self.ifs.push(i);
         }
         visit::visit_expr(self, e);
+    }
+    fn visit_expr_call(&mut self, c: &'ast ExprCall) {
+        self.calls.push(c);
+        visit::visit_expr_call(self, c);
     }
     fn visit_field_value(&mut self, f: &'ast FieldValue) {
         self.fields.push(f);
@@ -201,9 +206,18 @@ pub fn resolve<'a>(sf: &'a SourceFile, path: &str) -> std::result::Result<Cur<'a
             .any(|p| seg.starts_with(p))
         {
             let (kw, name) = seg.split_once(' ').unwrap();
-            let items: &[Item] = match &cur {
-                Cur::File(f) => &f.items,
-                Cur::Mod(m) => m.content.as_ref().map(|c| &c.1[..]).unwrap_or(&[]),
+            let body_items: Vec<&Item>;
+            let items: Vec<&Item> = match &cur {
+                Cur::File(f) => f.items.iter().collect(),
+                Cur::Mod(m) => m.content.as_ref().map(|c| c.1.iter().collect()).unwrap_or_default(),
+                Cur::ItemFn(f) => {
+                    body_items = f.block.stmts.iter().filter_map(|s| if let Stmt::Item(i) = s { Some(i) } else { None }).collect();
+                    body_items
+                }
+                Cur::ImplFn(f) => {
+                    body_items = f.block.stmts.iter().filter_map(|s| if let Stmt::Item(i) = s { Some(i) } else { None }).collect();
+                    body_items
+                }
                 _ => return Err(lost("item inside non-module")),
             };
             let mut found = None;
@@ -234,6 +248,18 @@ pub fn resolve<'a>(sf: &'a SourceFile, path: &str) -> std::result::Result<Cur<'a
                 .nth(k - 1)
                 .ok_or_else(|| lost("no such match arm"))?;
             cur = Cur::Arm(a);
+        } else if let Some(pp) = seg.strip_prefix("armguard ") {
+            let (pat, k) = split_ord(pp);
+            let want = norm(&pat);
+            let coll = collect(&cur);
+            let a = coll
+                .arms
+                .iter()
+                .filter(|a| norm(sf.slice(sf.range(a.pat.span()))).starts_with(&want))
+                .nth(k - 1)
+                .ok_or_else(|| lost("no such match arm"))?;
+            let g = a.guard.as_ref().ok_or_else(|| lost("arm has no guard"))?;
+            cur = Cur::Expr(&g.1);
         } else if seg.starts_with("closure") {
             let (_, k) = split_ord(seg);
             let coll = collect(&cur);
@@ -269,6 +295,20 @@ pub fn resolve<'a>(sf: &'a SourceFile, path: &str) -> std::result::Result<Cur<'a
                 .ok_or_else(|| lost("no such let"))?;
             let init = l.init.as_ref().ok_or_else(|| lost("let without initialiser"))?;
             cur = Cur::Expr(&init.expr);
+        } else if let Some(n) = seg.strip_prefix("call ") {
+            // the argument list of the k-th call whose callee path ends with the given text
+            let (pfx, k) = split_ord(n);
+            let want = norm(&pfx);
+            let coll = collect(&cur);
+            let c = coll
+                .calls
+                .iter()
+                .filter(|c| norm(sf.slice(sf.range(c.func.span()))).ends_with(&want))
+                .nth(k - 1)
+                .ok_or_else(|| lost("no such call"))?;
+            let v: Vec<Expr> = c.args.iter().cloned().collect();
+            let leaked: &'static [Expr] = Box::leak(v.into_boxed_slice());
+            cur = Cur::Exprs(leaked);
         } else if let Some(n) = seg.strip_prefix("field ") {
             let (name, k) = split_ord(n);
             let coll = collect(&cur);
@@ -279,6 +319,43 @@ pub fn resolve<'a>(sf: &'a SourceFile, path: &str) -> std::result::Result<Cur<'a
                 .nth(k - 1)
                 .ok_or_else(|| lost("no such struct-literal field"))?;
             cur = Cur::Expr(&f.expr);
+        } else if let Some(n) = seg.strip_prefix("ifexpr ") {
+            // the whole k-th `if` expression whose normalized source starts with the given text
+            let (pfx, k) = split_ord(n);
+            let want = norm(&pfx);
+            let coll = collect(&cur);
+            let found = coll
+                .ifs
+                .iter()
+                .filter(|i| norm(sf.slice(sf.range(i.span()))).starts_with(&want))
+                .nth(k - 1)
+                .ok_or_else(|| lost("no such if expression"))?;
+            // ExprIf is not an Expr: find the enclosing Expr::If by span
+            struct F<'x> {
+                want: (usize, usize),
+                sf: &'x SourceFile,
+                hit: Option<&'x Expr>,
+            }
+            impl<'x> Visit<'x> for F<'x> {
+                fn visit_expr(&mut self, e: &'x Expr) {
+                    if let Expr::If(_) = e {
+                        if self.sf.range(e.span()) == self.want && self.hit.is_none() {
+                            self.hit = Some(e);
+                        }
+                    }
+                    visit::visit_expr(self, e);
+                }
+            }
+            let mut f = F { want: sf.range(found.span()), sf, hit: None };
+            match &cur {
+                Cur::Arm(a) => f.visit_expr(&a.body),
+                Cur::ItemFn(x) => f.visit_block(&x.block),
+                Cur::ImplFn(x) => f.visit_block(&x.block),
+                Cur::Closure(c) => f.visit_expr(&c.body),
+                Cur::Expr(e) => f.visit_expr(e),
+                _ => {}
+            }
+            cur = Cur::Expr(f.hit.ok_or_else(|| lost("if expression not reachable"))?);
         } else if let Some(n) = seg.strip_prefix("ifcond ") {
             // condition of the k-th `if` whose normalized condition starts with the given text
             let (pfx, k) = split_ord(n);
@@ -633,6 +710,17 @@ pub fn extract_item(sf: &SourceFile, it: &Value, cfg: &Config) -> std::result::R
             } else if let Some(p) = at.strip_prefix("after:") {
                 let s = find_stmt(sf, &coll, p).ok_or_else(|| lost("no such statement"))?;
                 rw.edits.insert(sf.range(s.span()).1, format!("\n{}", text), "ghost:after");
+            } else if let Some(fname) = at.strip_prefix("body_start:") {
+                let b = match &cur {
+                    Cur::Impl(i) => i.items.iter().find_map(|ii| match ii {
+                        ImplItem::Fn(f) if f.sig.ident == fname => Some(&f.block),
+                        _ => None,
+                    }),
+                    _ => None,
+                }
+                .ok_or_else(|| lost("no such method"))?;
+                let p = sf.off(b.brace_token.span.open().end());
+                rw.edits.insert(p, format!("\n{}\n", text), "ghost:body-start");
             } else if at == "body_start" {
                 let b = match &cur {
                     Cur::ItemFn(f) => &f.block,
